@@ -566,6 +566,43 @@ Fixpoint text_lines_ok (pos : point) (al : halign) (widths : list Z) (lh : Z) : 
   | w :: rest => text_line_ok pos al (P w 0) lh && text_lines_ok (P (px pos) (py pos + lh)) al rest lh
   end.
 
+(* ---- src/mono_font/mono_text_style.rs: a mono font = character width cw, height ch, spacing sp, baseline row bl,
+   underline (offset uo, height uh); n = number of characters of the line ---- *)
+Inductive vbaseline := BTop | BBottom | BMiddle | BAlphabetic.
+(* mono_text_style.rs:170 baseline_offset: saturating_sub / saturating_as only: no panic site *)
+Definition baseline_offset (b : vbaseline) (ch bl : Z) : Z :=
+  match b with
+  | BTop => 0
+  | BBottom => sat_u32_to_i32 (sat_sub_u32 ch 1)
+  | BMiddle => sat_u32_to_i32 (sat_sub_u32 ch 1 / 2)
+  | BAlphabetic => sat_u32_to_i32 bl
+  end.
+Definition baseline_offset_ok (b : vbaseline) (ch bl : Z) : bool := true.
+(* mono_text_style.rs:75 line_elements: `width as i32`, `spacing as i32`; position.x += ... once per character / gap *)
+Fixpoint line_elements_ok (x cw sp : Z) (n : nat) : bool :=
+  match n with
+  | O => true
+  | Datatypes.S O => i32 (x + cw)
+  | Datatypes.S k => i32 (x + cw) && i32 (x + cw + sp) && line_elements_ok (x + cw + sp) cw sp k
+  end.
+(* mono_text_style.rs:193 draw_string with neither text nor background colour (the other branches walk line_elements):
+   position - (0, offset); (cw + sp) * count as u32; position + Size; next.x - position.x; next + (0, offset) *)
+Definition draw_string_plain_ok (pos : point) (bo cw sp n : Z) : bool :=
+  point_sub_ok pos (P 0 bo) && u32 (cw + sp) && u32 ((cw + sp) * n) &&
+  point_add_size_ok (psub pos (P 0 bo)) (S ((cw + sp) * n) 0) &&
+  (if 0 <? (cw + sp) * n then i32 ((px pos + (cw + sp) * n) - px pos) else true) &&
+  point_add_ok (padd_size (psub pos (P 0 bo)) (S ((cw + sp) * n) 0)) (P 0 bo).
+(* mono_text_style.rs:237 draw_whitespace: position - (0, offset); position + (width.saturating_as(), offset) *)
+Definition draw_whitespace_ok (pos : point) (bo width : Z) : bool :=
+  point_sub_ok pos (P 0 bo) && point_add_ok (psub pos (P 0 bo)) (P (sat_u32_to_i32 width) bo).
+(* mono_text_style.rs:263 measure_string: position - (0, offset); count as u32 * (cw + sp) saturating_sub sp;
+   underline.height + underline.offset; position + bb_size.x_axis() *)
+Definition measure_width (cw sp n : Z) : Z := sat_sub_u32 (n * (cw + sp)) sp.
+Definition measure_string_ok (pos : point) (bo cw sp n uo uh : Z) (underline : bool) : bool :=
+  point_sub_ok pos (P 0 bo) && u32 (cw + sp) && u32 (n * (cw + sp)) &&
+  (if underline then u32 (uh + uo) else true) &&
+  point_add_size_ok pos (S (measure_width cw sp n) 0).
+
 (* =========================================================================================== *)
 (* src/image/image_raw.rs, src/iterator/contiguous.rs                                           *)
 (* =========================================================================================== *)
@@ -731,6 +768,11 @@ Definition recorded : list (string * string * string * string) := [
   ("src/primitives/triangle/mod.rs", "ContainsPoint for Triangle::contains", "mul sub mul add ( sub ) mul add ( sub ) mul mul sub mul add ( sub ) mul add ( sub ) mul ( 0 ) ( 0 ) 0 0 0 0 add 0 0 add", "triangle_contains_ok");
   ("src/primitives/triangle/mod.rs", "Triangle::area_doubled", "neg mul add mul ( sub ) add mul ( sub ) add mul", "area_doubled_ok");
   ("src/primitives/triangle/mod.rs", "Transform for Triangle::translate_mut", "add=", "point_add_ok");
+  ("src/mono_font/mono_text_style.rs", "MonoTextStyle::line_elements", "as:i32 as:i32 add= ( ) add= ( ) ( )", "line_elements_ok");
+  ("src/mono_font/mono_text_style.rs", "MonoTextStyle::baseline_offset", "0 .saturating_sub( 1 ) .saturating_as ( .saturating_sub( 1 ) div 2 ) .saturating_as .saturating_as", "baseline_offset_ok");
+  ("src/mono_font/mono_text_style.rs", "TextRenderer for MonoTextStyle::draw_string", "sub 0 ( ) ( ) ( ) ( ) ( ) ( add ) mul as:u32 add 0 ( sub ) as:u32 add 0", "draw_string_plain_ok (and line_elements_ok)");
+  ("src/mono_font/mono_text_style.rs", "TextRenderer for MonoTextStyle::draw_whitespace", "sub 0 0 add .saturating_as", "draw_whitespace_ok");
+  ("src/mono_font/mono_text_style.rs", "TextRenderer for MonoTextStyle::measure_string", "sub 0 ( as:u32 mul ( add ) ) .saturating_sub( ) ( add ) add", "measure_string_ok");
   ("src/text/mod.rs", "LineHeight::to_absolute", "mul div 100", "line_height_ok");
   ("src/text/text.rs", "Transform for Text::translate", "add", "point_add_ok");
   ("src/text/text.rs", "Transform for Text::translate_mut", "add=", "point_add_ok");
